@@ -808,7 +808,8 @@ def fam_wrap(prop, tier):
     return out
 
 
-FAMILIES["C01"] = [fam_ops]
+# both operands of fold / try_fold as stateful blocks: the documented call evaluates its arguments left to right
+FAMILIES["C01"] = [fam_ops, lambda p, t: [h for h in _capture_special(p) if "fold2" in h.name]]
 FAMILIES["C02"] = [fam_wrap]
 FAMILIES["C10"] = [fam_ops]
 
@@ -994,7 +995,7 @@ def _capture_harness(prop, ds, rot, mac):
         b += "        Some(%s)\n    })();\n" % tup("v%d.unwrap()" % i for i in range(n))
     else:
         b += "        %s\n    })();\n" % tup("v%d" % i for i in range(n))
-    b += "    assert!(r == exp, \"C11: value differs when block operands are evaluated up front\");\n"
+    b += "    assert!(r == exp, \"value differs from the documented call with the block operands evaluated once, left to right\");\n"
     b += trace_eq(nev)
     hn = "%s_cap_%s_%s_r%d" % (prop.lower(), mac, pname(ds), rot)
     return Harness(hn, harness_fn(hn, b), prog, note="block operands on every action; profile %s; operator rotation %d" % (ds, rot))
@@ -1035,7 +1036,7 @@ def _capture_special(prop):
         for c in caps:
             b += "    %s\n" % c
         b += "    let exp: (Option<u8>, %s) = (Some(a1).map(c0), %s);\n" % (rty, chain)
-        b += "    assert!(r == exp, \"C11: value differs when block operands are evaluated up front\");\n"
+        b += "    assert!(r == exp, \"value differs from the documented call with the block operands evaluated once, left to right\");\n"
         b += trace_eq(14)
         hn = "%s_cap_special_%s" % (prop.lower(), name)
         out.append(Harness(hn, harness_fn(hn, b, unwind=uw or None), prog, note="block operands of iterator operators / inside wrappers"))
